@@ -300,7 +300,7 @@ def run(U, rep, tier):
 
 
 # ------------------------------------------------------------------------------------------------ R13.4
-def _doc(variant, unit=True):
+def _doc(variant, unit=True, concrete_quats=None):
   """A mock MJCF body tree.  Every numeric attribute is symbolic; quaternions are unit by construction (unit=True) or
   GENERAL (MuJoCo normalises a `quat` attribute, so a legal document may spell any non-zero quaternion)."""
   from braxlint import refkin
@@ -318,7 +318,12 @@ def _doc(variant, unit=True):
       a['pos'] = num(3, 'p')
     if kind in ('quat', 'both'):
       cnt[0] += 1
-      a['quat'] = NumStr(list(refkin.unit_quat('uq%d_' % cnt[0]))) if unit else num(4, 'q')
+      if concrete_quats is not None:
+        # exact special orientations (half turns, 3-4-5 rotations): compositions land exactly on w == 0
+        from braxlint.avn import Rat
+        a['quat'] = NumStr([Rat.lift(x) for x in concrete_quats[cnt[0] % len(concrete_quats)]])
+      else:
+        a['quat'] = NumStr(list(refkin.unit_quat('uq%d_' % cnt[0]))) if unit else num(4, 'q')
     return a
 
   def leaves(prefix):
@@ -364,6 +369,8 @@ def _mj_compose(chain):
 
 def _parallel(a, b):
   from braxlint.avn import Rat
+  if all(Rat.lift(x).is_zero() for x in a):
+    return False              # the zero quaternion is no orientation (MuJoCo rejects it)
   return all(Rat.lift(a[i] * b[j] - a[j] * b[i]).is_zero() for i in range(len(a)) for j in range(i + 1, len(a)))
 
 
@@ -377,8 +384,10 @@ def geometry_preserved(U, rep, tier):
   f = U.func('brax.io.mjcf._fuse_bodies')
   kinds = [('both', 'both'), ('quat', 'pos'), ('pos', 'quat'), ('none', 'both')] if tier == 'quick' else [
       (a, b) for a in ('both', 'pos', 'quat', 'none') for b in ('both', 'pos', 'quat', 'none')]
-  runs = [(v, True) for v in kinds] + [(('both', 'both'), False)]
-  for variant, unit in runs:
+  from fractions import Fraction as _F
+  special = [(0, 1, 0, 0), (0, 0, 1, 0), (0, _F(3, 5), _F(4, 5), 0), (1, 0, 0, 0), (0, 0, 0, 1), (_F(3, 5), _F(4, 5), 0, 0), (0, 1, 0, 0)]
+  runs = [(v, True, None) for v in kinds] + [(('both', 'both'), False, None), (('quat', 'both'), True, special), (('both', 'quat'), True, special[1:])]
+  for variant, unit, cq in runs:
     bad = None
     for t in range(40):
       # symbolic attribute values are generic: a spelled-out pos / quat differs from the default it overrides
@@ -394,7 +403,7 @@ def geometry_preserved(U, rep, tier):
       avn.FIELD['sqrt_axiom'] = True
       try:
         I = new_interp(U.repo)
-        root = _doc(variant, unit)
+        root = _doc(variant, unit, cq)
         # reference world-relative poses BEFORE fusing: {leaf name: (anchor name, chain of frames)}
         want = {}
 
@@ -473,6 +482,11 @@ def geometry_preserved(U, rep, tier):
                 'a `quat` attribute that is not normalised (legal MJCF: MuJoCo normalises it) scales the offsets of the fused '
                 'body\'s children by |q|^2: after mjcf._fuse_bodies %s' % bad, where=f.where(),
                 construct='the same mock documents with GENERAL (non-unit) quaternions')
+      continue
+    if cq is not None:
+      rep.check(bad is None, 'R13.4', 'fusing preserves geometry [exact half-turn / 3-4-5 orientations, bodies with %s / nested %s]' % variant,
+                'after mjcf._fuse_bodies %s (exact special orientations: compositions with scalar part exactly 0)' % bad, where=f.where(),
+                construct='quat attributes such as "0 1 0 0", "0 0.6 0.8 0": products land exactly on w == 0')
       continue
     rep.check(bad is None, 'R13.4', 'fusing preserves geometry [jointless bodies with %s / nested %s]' % variant,
               'after mjcf._fuse_bodies %s (poses symbolic, quaternions unit by construction)' % bad,
